@@ -2,7 +2,7 @@
 import glob, json, os, random
 from harness import tlc, engine
 from harness.common import Machinery, REPO
-from checks.c04_driver import RECEIVERS, VARIANT_RECEIVERS, ARG_PY
+from checks.c04_driver import RECEIVERS, ARG_PY
 from checks.c13 import judge_retry, tlc_run_retry
 
 MC_EMIT_CFG = "INIT McInit\nNEXT McNext\nCONSTRAINT McEmit\nINVARIANT McLaws\nINVARIANT McPrefix\nCHECK_DEADLOCK FALSE\n"
@@ -196,30 +196,54 @@ def run(rep):
     def part_grid():
         # ---- B. the built-in grid: argument vectors enumerated by TLC, functions discovered at run time -----------------
         gres = tlc_job("grid")
-        rep.add_tlc("C04.ArgVectors + GridLaw", gres)
-        vtag = {tuple(r["cls"]): r["pf"] for r in gres.records if r.get("kind") == "vec"}
-        vecs = sorted(vtag, key=lambda v: (len(v), v))
-        huge = sorted({r["pf"] for r in gres.records if r.get("kind") == "huge"})
-        allocating = sorted({r["pf"] for r in gres.records if r.get("kind") == "allocating"})
-        short = [v for v in vecs if vtag[v] == "short"]
+        rep.add_tlc("C04.GridItems (argument vectors, receivers, operator forms, use statements) + GridLaw", gres)
+        items = {}
+        for r in gres.records:
+            if r.get("kind") in ("vec", "recv", "op", "use", "huge", "allocating", "param"):
+                items[json.dumps(r, sort_keys=True)] = r
+        items = [items[k] for k in sorted(items)]
+        gres.records, gres.stdout = None, ""
+        vgroups = {tuple(r["cls"]): set(r["to"]) for r in items if r["kind"] == "vec"}
+        vecs = sorted(vgroups, key=lambda v: (len(v), v))
+        rgroups = {r["pf"]: set(r["to"]) for r in items if r["kind"] == "recv"}
+        ops = [{"n": r["pf"], "t": r["cls"][0], "ar": r["ar"], "g": r["to"][0]} for r in items if r["kind"] == "op"]
+        use = [r["cls"][0] for r in sorted((r for r in items if r["kind"] == "use"), key=lambda r: r["ar"])]
+        params = {r["pf"]: r["ar"] for r in items if r["kind"] == "param"}
+        huge = sorted({r["pf"] for r in items if r["kind"] == "huge"})
+        allocating = sorted({r["pf"] for r in items if r["kind"] == "allocating"})
+        oppairs = [list(v) for v in vecs if "oppair" in vgroups[v]]
+        main = [v for v in vecs if "kinds" in vgroups[v]]
         classes = sorted({a for v in vecs for a in v})
-        if len(vecs) < 500 or len(short) < 50 or len(huge) < 3 or len(allocating) < 10 or not any(len(v) == 3 for v in vecs):
-            raise Machinery("argument grid incomplete: %d vectors, %d short, %d huge classes, %d allocating names" % (len(vecs), len(short), len(huge), len(allocating)))
-        rep.spaces.append({"space": "argument vectors of length <= 3 over %d argument classes (TLC-enumerated; %d of length 3; %d short vectors for "
-                                    "the receiver variants)" % (len(classes), sum(1 for v in vecs if len(v) == 3), len(short)),
+        if (len(main) < 800 or len(huge) < 3 or len(allocating) < 10 or not any(len(v) == 3 for v in main) or len(ops) < 30 or len(use) < 10
+                or set(params) != {"HostileSize", "DeepLevels", "MutBudget"} or len(oppairs) < 50):
+            raise Machinery("argument grid incomplete: %d vectors, %d huge classes, %d allocating names, %d operator forms, %d use statements, "
+                            "parameters %r" % (len(main), len(huge), len(allocating), len(ops), len(use), params))
+        if set(rgroups) != set(RECEIVERS):
+            raise Machinery("receivers of the specification and of the driver differ: %r" % sorted(set(rgroups) ^ set(RECEIVERS)))
+        ngroup = {g: sum(1 for v in vecs if g in vgroups[v]) for g in ("kinds", "variants", "hostile", "global", "indexed", "oppair")}
+        rep.spaces.append({"space": "argument vectors of length <= 3 over %d argument classes (TLC-enumerated; by receiver group: %s)"
+                                    % (len(classes), ", ".join("%s %d" % kv for kv in sorted(ngroup.items()))),
                            "cases": len(vecs), "complete": True})
+        rep.spaces.append({"space": "operator forms on a receiver (TLC-enumerated templates: element read / store, length store, delete, in, "
+                                    "operators, conversions, enumeration, call / construct)", "cases": len(ops), "complete": True})
         rep.notes["argument_classes"] = classes
+        rep.notes["receiver_groups"] = {k: sorted(v) for k, v in sorted(rgroups.items())}
+        rep.notes["use_statements"] = use
         py_classes = set(ARG_PY)
         ecases = []
         nslice = 12
-        for recv in RECEIVERS:
-            mine = short if (quick and recv in VARIANT_RECEIVERS) else vecs
+        for recv in sorted(RECEIVERS):
+            mine = [v for v in vecs if vgroups[v] & rgroups[recv]]
+            myops = [op for op in ops if op["g"] in rgroups[recv]]
+            if not mine:
+                raise Machinery("receiver %s gets no vector" % recv)
             ns = nslice if len(mine) > 200 else 2
             for k in range(ns):
                 for intrep in (("lit",) if quick else ("lit", "float")):
                     # the second representation only differs for the vectors that contain a number
                     vs = [list(v) for v in mine[k::ns] if intrep == "lit" or any(a in py_classes for a in v)]
-                    ecases.append({"kind": "grid", "recv": recv, "vecs": vs, "allocating": allocating, "huge": huge, "intrep": intrep})
+                    ecases.append({"kind": "grid", "recv": recv, "vecs": vs, "allocating": allocating, "huge": huge, "intrep": intrep,
+                                   "ops": myops if intrep == "lit" else [], "oppairs": oppairs, "use": use, "params": params})
         stats["nrecv"] = len(RECEIVERS)
         process(rep, rng, ecases, stats)
 
@@ -280,8 +304,9 @@ def run(rep):
     if missing:
         raise Machinery("no discovery answer for the receiver kinds %r" % missing)
     rep.notes["receivers_without_functions"] = sorted(r for r in RECEIVERS if not discovered[r])
-    rep.spaces.append({"space": "built-in grid: %d function-valued properties discovered on %d receiver kinds x argument vectors"
-                                % (nfn, len(discovered)), "cases": stats["ncalls"], "complete": True})
+    rep.spaces.append({"space": "built-in grid: %d function-valued properties discovered on %d receivers x argument vectors, and the operator "
+                                "forms (%d of the calls); %d calls returned an object, which was then used (use statements)"
+                                % (nfn, len(discovered), stats.get("nops", 0), stats.get("nuse", 0)), "cases": stats["ncalls"], "complete": True})
     rep.notes["discovered_functions"] = {k: sorted(v) for k, v in sorted(discovered.items())}
     rep.spaces.append({"space": "prefixes of the corpus programs", "cases": npre, "complete": not quick})
     rep.spaces.append({"space": "seeded truncations / splices / mutations of corpus programs, each with LF and with CRLF line endings",
@@ -400,9 +425,11 @@ def process(rep, rng, ecases, stats, flush=False):
             raise Machinery("grid slice of receiver %s lost (%r)" % (c["recv"], r.get("out")))
         elif "fname" in r:
             i = len(recs)
-            recs.append(rec(i, "call", out=r["out"], fname=r["fname"], args=r["args"]))
+            recs.append(rec(i, "call", out=r["out"], fname=r["fname"], args=r["args"], lex=r.get("use")))
             srcs[i] = "%s %s" % (r["recv"], r["src"])
             stats["ncalls"] += 1
+            stats["nops"] = stats.get("nops", 0) + (r["form"] == "op")
+            stats["nuse"] = stats.get("nuse", 0) + ("use" in r)
     del results, byid, order
     verdicts, st, tr, wall = judge_retry(rep, recs, module="C04")
     rep.add_judge(len(recs), st, tr)
